@@ -689,9 +689,38 @@ fn run_c02(seed: u64, n: usize, oracle_only: bool, budget: usize, out: &mut Out)
     // later @fold (imported tags) or on a later vertex, where adjacent contexts differ in whether the
     // scope exists - the places where the engine pairs a resolver's outputs with per-context state
     let optional_tag_family = (n / 5).max(40);
-    for i in 0..(n + optional_tag_family) {
+    let deep_recursion_family = (n / 8).max(30);
+    for i in 0..(n + optional_tag_family + deep_recursion_family) {
         let c = if i < n {
             gen_case(&mut rng, &schema, &mut stats, 0)
+        } else if i >= n + optional_tag_family {
+            // deep @recurse through the implicitly coerced edge (a resolve_coercion between the levels, where
+            // some contexts are already finished), also inside an @optional scope
+            let mut r2 = rng.fork();
+            let root = *r2.pick(&["Item", "Box", "Leaf"]);
+            let d = r2.range(2, 5);
+            let hi = *r2.pick(&["", "(hi: 1000)", "(hi: 6)"]);
+            let text = match r2.range(0, 2) {
+                0 => format!("query {{ {root} {{ id @output(name: \"r\") up{hi} @recurse(depth: {d}) {{ id @output }} }} }}"),
+                1 => format!("query {{ {root} {{ id @output(name: \"r\") next @optional {{ ... on Item {{ id @output(name: \"m\") up{hi} @recurse(depth: {d}) {{ id @output }} }} }} }} }}"),
+                _ => format!("query {{ {root} {{ id @output(name: \"r\") up{hi} @recurse(depth: {d}) {{ id @output link @fold {{ id @output(name: \"l\") }} }} }} }}"),
+            };
+            let indexed = match trustfall_core::frontend::parse(&schema, &text) {
+                Ok(ix) => ix,
+                Err(e) => {
+                    out.oracle_fail("deep-recursion template was rejected by the frontend", json!({"query": text}), json!({"error": format!("{e:?}")}));
+                    continue;
+                }
+            };
+            out.count("family:deep-recursion");
+            EngineCase {
+                dataset: world::gen_dataset(&mut r2, 9),
+                query_text: text,
+                indexed,
+                args: std::sync::Arc::new(Default::default()),
+                features: Default::default(),
+                var_hints: Default::default(),
+            }
         } else {
             let mut r2 = rng.fork();
             let root = *r2.pick(&["Thing", "Item", "Box", "Gadget"]);
